@@ -22,6 +22,8 @@ pub struct CrashFinding
     pub v : Violation,
     pub index : u32,
     pub torn : Option<u32>,
+    /* a second kill, during the recovery build: (mutation index of the recovery, torn bytes) */
+    pub second : Option<(u32, Option<u32>)>,
 }
 
 pub struct Caps
@@ -30,6 +32,80 @@ pub struct Caps
     pub torn_state_all : bool,    // every strict prefix of state-file writes up to 512 bytes
     pub torn_samples : usize,
     pub recovery_sampled : bool,  // also recover under one sampled schedule
+    pub second_kill_one_in : u64, // examine kills during the recovery build for 1 in n first-level states (0 = never)
+    pub second_kill_states : usize,
+}
+
+
+/* audit (C07) + conservation (C08, with the narrow in-flight exemption) of one crash image */
+fn examine_image(disk : &Disk, whence : &str, baseline : &BTreeMap<Vec<u8>, String>, target_paths : &BTreeSet<String>,
+    expected : &BTreeMap<String, Vec<u8>>, earlier : &[CrashPoint], prefix : &str, exemptions : &mut u64) -> Vec<Violation>
+{
+    let mut vs = vec![];
+    let mut audit = vec![];
+    audit_cache(disk, whence, &mut audit);
+    for a in audit { vs.push(Violation{ prop : "C11", sig : format!("C11:{}{}", prefix, a.sig), detail : a.detail }); }
+    let now = conserved_contents(disk, target_paths);
+    for (c, wher) in baseline.iter()
+    {
+        if now.contains_key(c) { continue; }
+        // narrow exemption: the in-flight command has truncated a target that held exactly the
+        // bytes it is regenerating for that very target (the AlreadyCorrect / just-recovered
+        // sibling of a multi-target rule whose command has to run); the recovery step verifies
+        // that the next build does regenerate them
+        let exempt = earlier.iter().any(|q|
+            q.origin == Origin::Command && q.op == FsOp::CreateFile
+            && q.before.read(&q.path).map(|b| *b == *c).unwrap_or(false)
+            && expected.get(&q.path).map(|b| *b == *c).unwrap_or(false));
+        if exempt { *exemptions += 1; continue; }
+        vs.push(Violation{ prop : "C11", sig : format!("C11:{}content-lost-at-crash:{}", prefix, if wher.starts_with("cache") { "was-in-cache" } else { "was-at-target" }),
+            detail : format!("{}: bytes {} ({} before the invocation) are nowhere at a target path or in the cache", whence, super::super::util::show_bytes(c), wher) });
+    }
+    vs
+}
+
+fn expected_outputs(m : &Result<model::ModelResult, model::GraphError>) -> BTreeMap<String, Vec<u8>>
+{
+    match m
+    {
+        Ok(m) => m.outcomes.values().flat_map(|o| match o { Outcome::Built(ts) => ts.iter().map(|(t, b, _)| (t.clone(), b.clone())).collect::<Vec<_>>(), _ => vec![] }).collect(),
+        Err(_) => BTreeMap::new(),
+    }
+}
+
+/* the recovery build from `disk`; returns its violations and the observation */
+fn recover(case : &Case, rules : &[SRule], disk : &Disk, clock : u64, rsched : SchedSpec, whence : &str, prefix : &str, victim : usize, record : bool) -> (Vec<Violation>, Option<(Inv, Vec<CrashPoint>)>)
+{
+    let mut vs = vec![];
+    let world = World::from_disk(case.knobs.clone(), RULER_DIR, disk.clone(), clock);
+    let reader = { let d = disk.clone(); move |p : &str| d.read(p).map(|a| (*a).clone()) };
+    let m = model::evaluate(rules, None, &reader);
+    if record { world.start_crash_recording(); }
+    let res = invoke(&world, true, None, case.rulefile_paths(), rsched);
+    let cps = if record { world.take_crash_points() } else { vec![] };
+    let after = world.snapshot().0;
+    let rinv = Inv{ op_index : victim, is_build : true, goal : None, rules : rules.to_vec(), before : disk.clone(), after : after, res : res, model : m };
+    let expected_ok = match &rinv.model { Ok(m) => m.all_built() && m.missing_leaves.len() == 0, Err(_) => false };
+    if !expected_ok { return (vs, None); }
+    match &rinv.res.verdict
+    {
+        Verdict::Ok =>
+        {
+            for v in oracle_c01(&rinv)
+            {
+                vs.push(Violation{ prop : "C11", sig : v.sig.replace("C01:", &format!("C11:{}recovery-build-wrong:", prefix)), detail : format!("{}: recovery build: {}", whence, v.detail) });
+            }
+            let mut audit = vec![];
+            audit_cache(&rinv.after, "after recovery", &mut audit);
+            for a in audit { vs.push(Violation{ prop : "C11", sig : format!("C11:{}after-recovery:{}", prefix, a.sig), detail : format!("{}: {}", whence, a.detail) }); }
+        },
+        other =>
+        {
+            vs.push(Violation{ prop : "C11", sig : format!("C11:{}recovery-failed:{}", prefix, hist::sig_of_verdict(other)),
+                detail : format!("{}: the next build returned {}", whence, other.short()) });
+        },
+    }
+    (vs, Some((rinv, cps)))
 }
 
 /* Build the disk a kill would leave: the snapshot before mutation `cp.index`, optionally with the
@@ -48,7 +124,7 @@ fn crash_disk(cp : &CrashPoint, torn : Option<u32>) -> Disk
 /* Run the history of `case` up to its last op (the victim), execute the victim under its own
    schedule while recording crash points, and examine the crash states.
    `only`: examine just this (index, torn) state (replay); otherwise all, subject to `caps`. */
-pub fn explore(case : &Case, caps : &Caps, only : Option<(u32, Option<u32>)>, recovery : &SchedSpec, rng : &mut Rng, mut stats : Option<&mut Stats>) -> Vec<CrashFinding>
+pub fn explore(case : &Case, caps : &Caps, only : Option<(u32, Option<u32>, Option<(u32, Option<u32>)>)>, recovery : &SchedSpec, rng : &mut Rng, mut stats : Option<&mut Stats>) -> Vec<CrashFinding>
 {
     let mut out = vec![];
     if case.ops.len() == 0 { return out; }
@@ -84,12 +160,6 @@ pub fn explore(case : &Case, caps : &Caps, only : Option<(u32, Option<u32>)>, re
     let mut target_paths : BTreeSet<String> = runner.ever_targets.clone();
     for r in rules.iter() { for t in r.targets.iter() { target_paths.insert(t.clone()); } }
     let pre_contents = conserved_contents(&pre.0, &target_paths);
-    // reference outputs of the victim build (for the narrow conservation exemption)
-    let victim_expected : BTreeMap<String, Vec<u8>> = match &inv.model
-    {
-        Ok(m) => m.outcomes.values().flat_map(|o| match o { Outcome::Built(ts) => ts.iter().map(|(t, b, _)| (t.clone(), b.clone())).collect::<Vec<_>>(), _ => vec![] }).collect(),
-        Err(_) => BTreeMap::new(),
-    };
 
     // which crash states to examine
     let mut states : Vec<(usize, Option<u32>)> = vec![];
@@ -117,7 +187,7 @@ pub fn explore(case : &Case, caps : &Caps, only : Option<(u32, Option<u32>)>, re
             }
         }
     }
-    if let Some((idx, torn)) = only
+    if let Some((idx, torn, _)) = only
     {
         states.retain(|(i, t)| cps[*i].index == idx && *t == torn);
     }
@@ -140,6 +210,8 @@ pub fn explore(case : &Case, caps : &Caps, only : Option<(u32, Option<u32>)>, re
         states = keep;
     }
 
+    let victim_expected = expected_outputs(&inv.model);
+    let second_only = match only { Some((_, _, sec)) => sec, None => None };
     for (i, torn) in states
     {
         let cp = &cps[i];
@@ -148,67 +220,22 @@ pub fn explore(case : &Case, caps : &Caps, only : Option<(u32, Option<u32>)>, re
             match torn { Some(n) => format!(", {} bytes of the write applied", n), None => "".to_string() });
         let class = format!("{:?}:{}:{:?}:{}", cp.op, file_class(&cp.path, &target_paths), cp.origin, if torn.is_some() { "torn" } else { "whole" });
 
-        let mut vs : Vec<Violation> = vec![];
-
-        // (1) the cache is still content-addressed
-        let mut audit = vec![];
-        audit_cache(&disk, &whence, &mut audit);
-        for a in audit { vs.push(Violation{ prop : "C11", sig : format!("C11:{}", a.sig), detail : a.detail }); }
-
-        // (2) nothing that existed before the invocation has been lost
-        let now = conserved_contents(&disk, &target_paths);
-        for (c, wher) in pre_contents.iter()
-        {
-            if now.contains_key(c) { continue; }
-            // narrow exemption: the in-flight command has truncated a target that held exactly the
-            // bytes it is regenerating for that very target (the AlreadyCorrect / just-recovered
-            // sibling of a multi-target rule whose command has to run); step (3) verifies that the
-            // recovery build does regenerate them
-            let exempt = cps[..i].iter().any(|q|
-                q.origin == Origin::Command && q.op == FsOp::CreateFile
-                && q.before.read(&q.path).map(|b| *b == *c).unwrap_or(false)
-                && victim_expected.get(&q.path).map(|b| *b == *c).unwrap_or(false));
-            if exempt
-            {
-                if let Some(s) = stats.as_deref_mut() { s.inc("c11.conservation_exemption_used"); }
-                continue;
-            }
-            vs.push(Violation{ prop : "C11", sig : format!("C11:content-lost-at-crash:{}", if wher.starts_with("cache") { "was-in-cache" } else { "was-at-target" }),
-                detail : format!("{}: bytes {} ({} before the invocation) are nowhere at a target path or in the cache", whence, super::super::util::show_bytes(c), wher) });
-        }
+        // (1) cache still content-addressed, (2) nothing lost
+        let mut exemptions = 0u64;
+        let mut vs = examine_image(&disk, &whence, &pre_contents, &target_paths, &victim_expected, &cps[..i], "", &mut exemptions);
+        if let Some(s) = stats.as_deref_mut() { s.add("c11.conservation_exemption_used", exemptions); }
 
         // (3) the next build recovers: fresh process, nothing but the disk survives
+        let want_second = second_only.is_some() || (only.is_none() && caps.second_kill_one_in > 0 && rng.below(caps.second_kill_one_in) == 0);
         let mut recoveries = vec![recovery.clone()];
-        if caps.recovery_sampled { recoveries.push(SchedSpec::random(rng)); }
-        for rsched in recoveries
+        if caps.recovery_sampled && only.is_none() { recoveries.push(SchedSpec::random(rng)); }
+        let mut first_recovery : Option<(Inv, Vec<CrashPoint>)> = None;
+        for (ri, rsched) in recoveries.into_iter().enumerate()
         {
-            let world = World::from_disk(case.knobs.clone(), RULER_DIR, disk.clone(), cp.clock + 10);
-            let reader = { let d = disk.clone(); move |p : &str| d.read(p).map(|a| (*a).clone()) };
-            let m = model::evaluate(&rules, None, &reader);
-            let res = invoke(&world, true, None, case.rulefile_paths(), rsched);
-            let after = world.snapshot().0;
-            let rinv = Inv{ op_index : victim, is_build : true, goal : None, rules : rules.clone(), before : disk.clone(), after : after, res : res, model : m };
-            if let Some(s) = stats.as_deref_mut() { s.inc("evaluations"); s.inc("c11.recovery_builds"); s.digest_str(&format!("{} {:?} {}", cp.index, torn, rinv.res.verdict.short())); }
-            let expected_ok = match &rinv.model { Ok(m) => m.all_built() && m.missing_leaves.len() == 0, Err(_) => false };
-            if !expected_ok { continue; }
-            match &rinv.res.verdict
-            {
-                Verdict::Ok =>
-                {
-                    for v in oracle_c01(&rinv)
-                    {
-                        vs.push(Violation{ prop : "C11", sig : v.sig.replace("C01:", "C11:recovery-build-wrong:"), detail : format!("{}: recovery build: {}", whence, v.detail) });
-                    }
-                    let mut audit = vec![];
-                    audit_cache(&rinv.after, "after recovery", &mut audit);
-                    for a in audit { vs.push(Violation{ prop : "C11", sig : format!("C11:after-recovery:{}", a.sig), detail : format!("{}: {}", whence, a.detail) }); }
-                },
-                other =>
-                {
-                    vs.push(Violation{ prop : "C11", sig : format!("C11:recovery-failed:{}", hist::sig_of_verdict(other)),
-                        detail : format!("{}: the next build returned {}", whence, other.short()) });
-                },
-            }
+            let (v, obs) = recover(case, &rules, &disk, cp.clock + 10, rsched, &whence, "", victim, want_second && ri == 0);
+            if let Some(s) = stats.as_deref_mut() { s.inc("evaluations"); s.inc("c11.recovery_builds"); if let Some((rinv, _)) = &obs { s.digest_str(&format!("{} {:?} {}", cp.index, torn, rinv.res.verdict.short())); } }
+            vs.extend(v);
+            if ri == 0 { first_recovery = obs; }
         }
 
         if let Some(s) = stats.as_deref_mut()
@@ -219,14 +246,61 @@ pub fn explore(case : &Case, caps : &Caps, only : Option<(u32, Option<u32>)>, re
             let differs_post = disk.image() != inv.after.image();
             if differs_pre && differs_post
             {
-                s.distinct.insert(H64::new().str(&class).get());
+                s.distinct.insert(H64::new().str(&class).u64(is_build as u64).get());
                 s.inc("c11.crash_states_strictly_inside");
             }
             s.inc(&format!("c11.class.{}", class));
         }
         for v in vs
         {
-            out.push(CrashFinding{ v : v, index : cp.index, torn : torn });
+            out.push(CrashFinding{ v : v, index : cp.index, torn : torn, second : None });
+        }
+
+        // (4) a second kill, during that recovery build: its images are audited against the first
+        //     crash image and must recover in turn
+        if want_second
+        {
+            if let Some((rinv, rcps)) = first_recovery
+            {
+                if rinv.res.verdict == Verdict::Ok
+                {
+                    let base2 = conserved_contents(&disk, &target_paths);
+                    let exp2 = expected_outputs(&rinv.model);
+                    let mut idxs : Vec<(usize, Option<u32>)> = vec![];
+                    for (j, q) in rcps.iter().enumerate()
+                    {
+                        idxs.push((j, None));
+                        if let Some((_, _, buf)) = &q.write { if buf.len() >= 2 { idxs.push((j, Some(1 + rng.below((buf.len() - 1) as u64) as u32))); } }
+                    }
+                    match second_only
+                    {
+                        Some((i2, t2)) => idxs.retain(|(j, t)| rcps[*j].index == i2 && *t == t2),
+                        None => { rng.shuffle(&mut idxs); idxs.truncate(caps.second_kill_states); },
+                    }
+                    for (j, t2) in idxs
+                    {
+                        let q = &rcps[j];
+                        let disk2 = crash_disk(q, t2);
+                        let whence2 = format!("{}; then the recovery build killed before its mutation {} ({:?} {} by {:?}){}", whence, q.index, q.op, q.path, q.origin,
+                            match t2 { Some(n) => format!(", {} bytes of the write applied", n), None => "".to_string() });
+                        let mut ex2 = 0u64;
+                        let mut vs2 = examine_image(&disk2, &whence2, &base2, &target_paths, &exp2, &rcps[..j], "second-kill:", &mut ex2);
+                        let (v, _) = recover(case, &rules, &disk2, q.clock + 10, SchedSpec::serial(), &whence2, "second-kill:", victim, false);
+                        vs2.extend(v);
+                        if let Some(s) = stats.as_deref_mut()
+                        {
+                            s.inc("evaluations");
+                            s.inc("c11.second_kill_states");
+                            s.inc("fault.kill.during_recovery_build");
+                            s.distinct.insert(H64::new().str("second").str(&format!("{:?}:{}:{:?}:{}", q.op, file_class(&q.path, &target_paths), q.origin, t2.is_some())).get());
+                        }
+                        for v in vs2
+                        {
+                            out.push(CrashFinding{ v : v, index : cp.index, torn : torn, second : Some((q.index, t2)) });
+                        }
+                    }
+                }
+            }
         }
     }
     out
@@ -234,15 +308,15 @@ pub fn explore(case : &Case, caps : &Caps, only : Option<(u32, Option<u32>)>, re
 
 fn caps_for(thorough : bool) -> Caps
 {
-    if thorough { Caps{ max_states : 0, torn_state_all : true, torn_samples : 8, recovery_sampled : true } }
-    else { Caps{ max_states : 150, torn_state_all : false, torn_samples : 3, recovery_sampled : false } }
+    if thorough { Caps{ max_states : 0, torn_state_all : true, torn_samples : 8, recovery_sampled : true, second_kill_one_in : 6, second_kill_states : 12 } }
+    else { Caps{ max_states : 150, torn_state_all : false, torn_samples : 3, recovery_sampled : false, second_kill_one_in : 12, second_kill_states : 4 } }
 }
 
-pub fn replay(case : &Case, index : u32, torn : Option<u32>, recovery : &SchedSpec) -> Vec<(String, String)>
+pub fn replay(case : &Case, index : u32, torn : Option<u32>, second : Option<(u32, Option<u32>)>, recovery : &SchedSpec) -> Vec<(String, String)>
 {
-    let caps = Caps{ max_states : 0, torn_state_all : true, torn_samples : 0, recovery_sampled : false };
+    let caps = Caps{ max_states : 0, torn_state_all : true, torn_samples : 0, recovery_sampled : false, second_kill_one_in : 0, second_kill_states : 0 };
     let mut rng = Rng::new(1);
-    explore(case, &caps, Some((index, torn)), recovery, &mut rng, None).into_iter().map(|f| (f.v.sig, f.v.detail)).collect()
+    explore(case, &caps, Some((index, torn, second)), recovery, &mut rng, None).into_iter().map(|f| (f.v.sig, f.v.detail)).collect()
 }
 
 pub fn run_one(cfg : &Config, seed : u64, k : u64, stats : &mut Stats) -> Vec<Found>
@@ -284,31 +358,33 @@ pub fn run_one(cfg : &Config, seed : u64, k : u64, stats : &mut Stats) -> Vec<Fo
             if !seen.insert(f.v.sig.clone()) || found.iter().any(|x| x.sig == f.v.sig) { continue; }
             // minimise the history; the crash index is re-found in the smaller case
             let sig = f.v.sig.clone();
-            let all = Caps{ max_states : 0, torn_state_all : false, torn_samples : 1, recovery_sampled : false };
+            let second_level = f.second.is_some();
+            let all = Caps{ max_states : 0, torn_state_all : false, torn_samples : 1, recovery_sampled : false, second_kill_one_in : if second_level { 1 } else { 0 }, second_kill_states : if second_level { 1000 } else { 0 } };
             let test = {
                 let sig = sig.clone();
                 move |cand : &Case|
                 {
                     let mut r = Rng::new(7);
                     match cand.ops.last() { Some(Op::Build{..}) | Some(Op::Clean{..}) => {}, _ => return false }
-                    explore(cand, &Caps{ max_states : 0, torn_state_all : false, torn_samples : 1, recovery_sampled : false }, None, &SchedSpec::serial(), &mut r, None).iter().any(|x| x.v.sig == sig)
+                    explore(cand, &Caps{ max_states : 0, torn_state_all : false, torn_samples : 1, recovery_sampled : false, second_kill_one_in : if second_level { 1 } else { 0 }, second_kill_states : if second_level { 1000 } else { 0 } }, None, &SchedSpec::serial(), &mut r, None).iter().any(|x| x.v.sig == sig)
                 }
             };
-            let small = if test(&c) { minimize_with_budget(&c, &test, 120) } else { c.clone() };
+            let small = if test(&c) { minimize_with_budget(&c, &test, if second_level { 30 } else { 120 }) } else { c.clone() };
             let mut r = Rng::new(7);
             let again = explore(&small, &all, None, &SchedSpec::serial(), &mut r, None);
-            let (case_final, index, torn, detail) = match again.into_iter().find(|x| x.v.sig == sig)
+            let (case_final, index, torn, second, detail) = match again.into_iter().find(|x| x.v.sig == sig)
             {
-                Some(x) => (small, x.index, x.torn, x.v.detail),
-                None => (c.clone(), f.index, f.torn, f.v.detail.clone()),
+                Some(x) => (small, x.index, x.torn, x.second, x.v.detail),
+                None => (c.clone(), f.index, f.torn, f.second, f.v.detail.clone()),
             };
             found.push(Found
             {
                 prop : "C11".to_string(),
                 sig : sig,
                 detail : detail,
-                explain : case_final.to_j().set("crash_before_mutation", J::Int(index as i64)).set("torn_bytes_applied", match torn { Some(n) => J::Int(n as i64), None => J::Null }),
-                replay : Replay::Crash{ case : case_final, index : index, torn : torn, recovery : SchedSpec::serial() },
+                explain : case_final.to_j().set("crash_before_mutation", J::Int(index as i64)).set("torn_bytes_applied", match torn { Some(n) => J::Int(n as i64), None => J::Null })
+                    .set("second_kill_before_mutation_of_recovery_build", match second { Some((i2, _)) => J::Int(i2 as i64), None => J::Null }),
+                replay : Replay::Crash{ case : case_final, index : index, torn : torn, second : second, recovery : SchedSpec::serial() },
             });
         }
     }
